@@ -271,6 +271,27 @@ type countConn struct {
 func (c *countConn) Read(p []byte) (int, error)  { n, err := c.Conn.Read(p); c.r += n; return n, err }
 func (c *countConn) Write(p []byte) (int, error) { n, err := c.Conn.Write(p); c.w += n; return n, err }
 
+// earlierServers: dials of the same goroutine that ended badly (whatever the dialer keeps between calls - pooled
+// readers and writers, nonce buffers - must not carry over to the next dial).
+func earlierServers(k int) {
+	resps := []string{
+		"HTTP/1.1 101 Switching Protocols\r\nUpgrade: websocket\r\nConnection: Upgrade\r\nSec-WebSocket-Protocol: stale-proto\r\nSec-WebSocket-Extensions: stale-ext; p=1\r\nX-Cut: in the middle of a li",
+		"HTTP/1.1 403 Forbidden\r\nContent-Length: 4000\r\nX-Long: " + strings.Repeat("z", 3000) + "\r\n\r\n" + strings.Repeat("b", 4000),
+		"HTTP/1.1 101 Switching Protocols\r\nUpgrade: websocket\r\nConnection: Upgrade\r\nSec-WebSocket-Accept: AAAAAAAAAAAAAAAAAAAAAAAAAAA=\r\nSec-WebSocket-Protocol: stale-proto\r\nSec-WebSocket-Extensions: stale-ext; p=1\r\n\r\nstale trailing bytes",
+		"",
+	}
+	conn := &fakeconn.Script{Plan: xport.Plan{Kind: "fixed", K: 7}}
+	conn.Respond = func([]byte) []byte { return []byte(resps[k%len(resps)]) }
+	if k%5 == 0 {
+		conn.WriteErrAt = 1
+	}
+	u, _ := url.ParseRequestURI("ws://earlier.example/stale")
+	d := ws.Dialer{Protocols: []string{"stale-proto"}, Extensions: []httphead.Option{httphead.NewOption("stale-ext", map[string]string{"p": "1"})}}
+	if br, _, _ := d.Upgrade(conn, u); br != nil {
+		ws.PutReader(br)
+	}
+}
+
 // exchange runs one Dialer.Upgrade against the scripted peer.
 func exchange(c *mon.C, cfg DCfg, ustr string, choice map[string]string, trailK int, delivery int, viaDial bool, keys map[string]bool, base ...*ws.Dialer) bool {
 	c.Count(1)
@@ -278,6 +299,11 @@ func exchange(c *mon.C, cfg DCfg, ustr string, choice map[string]string, trailK 
 	if err != nil {
 		c.Inconclusive("bad url in generator")
 		return true
+	}
+	if (trailK+delivery+len(ustr))%3 == 0 {
+		// the process has dialed other servers before this one: a response that stopped inside a header line, a long
+		// refusal, a 101 naming a subprotocol and extensions that were refused in the end
+		earlierServers(trailK + delivery)
 	}
 	d := buildDialer(cfg)
 	if len(base) > 0 {
